@@ -404,14 +404,21 @@ def step (s : State) (op : Op) : State × Res :=
   | Op.finish => if s.active then (flushAll s, Res.unit) else (s, Res.unit)
   | Op.create i hs v =>
       -- `create_suspend_point`: under a queue (installed temporarily in normal mode) `fn` runs, the handles it made ready
-      -- went to the back of the ready queue; they are taken off again *from the back* (`ss << queue.back(); pop_back()`),
-      -- so the queue is as before and the new suspend point holds them in reverse order; a non-void result is attached
-      -- by `suspend_point<X>(std::move(ss), std::move(v))` (same storage, the temporary `ss` is left empty and destroyed)
+      -- went to the back of the ready queue; they are taken off again front to back from the position where the queue ended
+      -- before (`ss << queue[sz]; erase(begin()+sz)`, /repo fix 34c6158 — the pinned code took them off the back, which reversed
+      -- them: `createAsIs`), so the queue is as before and the new suspend point holds them in the order they were made ready;
+      -- a non-void result is attached by `suspend_point<X>(std::move(ss), std::move(v))` (same storage, the temporary `ss` is
+      -- left empty and destroyed)
       if vacant s i then
-        (createAll (setObj s i (some { typed := v.isSome, value := v })) i hs.reverse, Res.unit)
+        (createAll (setObj s i (some { typed := v.isSome, value := v })) i hs, Res.unit)
       else (s, Res.bad)
 
 def run (s : State) (ops : List Op) : State := ops.foldl (fun s op => (step s op).1) s
+
+/-- `create_suspend_point` as the pinned commit had it: the readied handles were taken off the *back* of the ready queue
+(`ss << queue.back(); pop_back()`), i.e. collected in reverse order -/
+def createAsIs (s : State) (i : Nat) (hs : List Ptr) (v : Option Nat) : State :=
+  if vacant s i then createAll (setObj s i (some { typed := v.isSome, value := v })) i hs.reverse else s
 
 /-! ### the unrepaired code (pinned commit): merging a suspend point into itself -/
 
